@@ -910,6 +910,59 @@ func c16DomainPatterns(c *Ctx, n int) {
 	}
 }
 
+// a NAMED policy type whose domain column sits elsewhere (p2 = sub, obj, act, dom), decided
+// through an EnforceContext: a request is allowed iff GetNamedImplicitPermissionsForUser("p2",
+// "g", user, domain) lists a permission that grants it (implementation only, random small cases).
+func c16NamedTypeDomains(c *Ctx, n int) {
+	text := "[request_definition]\nr = sub, dom, obj, act\nr2 = sub, dom, obj, act\n[policy_definition]\np = sub, dom, obj, act\np2 = sub, obj, act, dom\n[role_definition]\ng = _, _, _\n[policy_effect]\ne = some(where (p.eft == allow))\ne2 = some(where (p.eft == allow))\n[matchers]\nm = g(r.sub, p.sub, r.dom) && r.dom == p.dom && r.obj == p.obj && r.act == p.act\nm2 = g(r2.sub, p2.sub, r2.dom) && r2.dom == p2.dom && r2.obj == p2.obj && r2.act == p2.act\n"
+	names := []string{"alice", "bob", "admin", "staff"}
+	doms := []string{"d1", "d2", "read"} // "read" is also an action: a wrong column would match it
+	objs := []string{"data1", "d1"}      // "d1" is also a domain
+	for k := 0; k < n; k++ {
+		mm, err := model.NewModelFromString(text)
+		if err != nil {
+			panic(err)
+		}
+		e, _ := casbin.NewEnforcer(mm)
+		var trace []string
+		for i := 1 + c.Rng.Intn(4); i > 0; i-- {
+			u, r, d := names[c.Rng.Intn(2)], names[2+c.Rng.Intn(2)], doms[c.Rng.Intn(len(doms))]
+			if ok, _ := e.AddGroupingPolicy(u, r, d); ok {
+				trace = append(trace, fmt.Sprintf("g(%s,%s,%s)", u, r, d))
+			}
+		}
+		for i := 1 + c.Rng.Intn(4); i > 0; i-- {
+			s, o, d := names[c.Rng.Intn(len(names))], objs[c.Rng.Intn(len(objs))], doms[c.Rng.Intn(len(doms))]
+			if ok, _ := e.AddNamedPolicy("p2", s, o, "read", d); ok {
+				trace = append(trace, fmt.Sprintf("p2(%s,%s,read,%s)", s, o, d))
+			}
+		}
+		ctx := casbin.EnforceContext{RType: "r2", PType: "p2", EType: "e2", MType: "m2"}
+		for _, u := range names {
+			for _, d := range doms {
+				ip, err := e.GetNamedImplicitPermissionsForUser("p2", "g", u, d)
+				if err != nil {
+					c.Direct(fmt.Sprintf("c16.p2dom.%d", k), "GetNamedImplicitPermissionsForUser(p2) failed: "+err.Error(), strings.Join(trace, " "))
+					continue
+				}
+				for _, o := range objs {
+					listed := false
+					for _, r := range ip {
+						if len(r) == 4 && r[1] == o && r[2] == "read" && r[3] == d {
+							listed = true
+						}
+					}
+					ok, err := e.Enforce(ctx, u, d, o, "read")
+					if err != nil || ok != listed {
+						c.Direct(fmt.Sprintf("c16.p2dom.%d", k), fmt.Sprintf("named policy type p2 = sub, obj, act, dom: Enforce(%s,%s,%s,read)=%v (err %v) but GetNamedImplicitPermissionsForUser(p2,g,%s,%s)=%v", u, d, o, ok, err, u, d, ip), strings.Join(trace, " "))
+					}
+				}
+			}
+		}
+		c.Count("named-type-domain-column(implementation only)")
+	}
+}
+
 // names that are the empty string and the policy-free branch: the model follows the code there
 // too (correspondence), the property's predicate is only evaluated inside its guards
 func c16Corner(c *Ctx) {
@@ -969,6 +1022,7 @@ func init() {
 			c16Random(c, 1000)
 			c16TwoDefs(c, 400)
 			c16DomainPatterns(c, 400)
+			c16NamedTypeDomains(c, 300)
 			parts = append(parts, "chains and cycles of 9,10,11,12 edges (both families); 1000 seeded random graphs on 4..14 names with policies of <=5 rules")
 		} else {
 			a := c16Exhaustive(c, "p3", "plain", n3, []string{""}, true, objs, rw, 3, 0, false)
@@ -981,6 +1035,7 @@ func init() {
 			c16Random(c, 10000)
 			c16TwoDefs(c, 6000)
 			c16DomainPatterns(c, 4000)
+			c16NamedTypeDomains(c, 3000)
 			parts = append(parts, "chains and cycles of 9,10,11,12 edges (both families); 10000 seeded random graphs on 4..14 names with policies of <=5 rules")
 		}
 		c16Corner(c)
